@@ -5,7 +5,7 @@
 //         its total-order laws
 // C11     mapped iterators / lookups over spec-built code maps
 // C14     index independence of ==, cmp, hash, clone
-use super::index_map::verif::{canonical, entry, is_canonical, key, KEYS};
+use super::index_map::verif::{any_classes, canonical, is_canonical, key, keys_of, KEYS};
 use super::{Entry, Key, Object};
 use crate::code_map::Mapped;
 use crate::verif::util::Sink;
@@ -51,7 +51,7 @@ pub fn key_code(k: &Key) -> u8 {
 }
 
 /// Object with entries `(keys[i], vals[i])` for i < n and the canonical index.
-pub fn object_of(keys: &[u8; 3], vals: &[u8; 3], n: usize) -> Object {
+pub fn object_of(pat: &[usize; 3], keys: &[u8; 3], vals: &[u8; 3], n: usize) -> Object {
 	let mut entries = Vec::with_capacity(4);
 	let mut i = 0;
 	while i < 3 {
@@ -62,18 +62,21 @@ pub fn object_of(keys: &[u8; 3], vals: &[u8; 3], n: usize) -> Object {
 	}
 	Object {
 		entries,
-		indexes: canonical(keys, n),
+		indexes: canonical(pat, keys, n),
 	}
 }
 
-/// The object is exactly the list `(keys[i], vals[i])`, i < n: entries, length,
-/// and every key-based query answers like a linear scan of that list.
+/// The object is exactly the list `(keys[i], vals[i])`, i < n (n <= 3):
+/// entries and length; the key index is the canonical index of that list
+/// (inspected directly, see index_map::verif::is_canonical); and, for ONE
+/// SYMBOLIC query key (present, duplicated or absent), every key-based
+/// accessor of the public API answers like a linear scan of the list.
 pub fn object_is(o: &Object, keys: &[u8; 4], vals: &[u8; 4], n: usize) -> bool {
-	if o.entries.len() != n || o.len() != n || o.is_empty() != (n == 0) {
+	if n > 3 || o.entries.len() != n || o.len() != n || o.is_empty() != (n == 0) {
 		return false;
 	}
 	let mut i = 0;
-	while i < 4 {
+	while i < 3 {
 		if i < n {
 			let e = &o.entries[i];
 			if key_code(&e.key) != keys[i] || val_code(&e.value) != vals[i] {
@@ -82,97 +85,82 @@ pub fn object_is(o: &Object, keys: &[u8; 4], vals: &[u8; 4], n: usize) -> bool {
 		}
 		i += 1;
 	}
-	// queries, for each of the four keys
-	let mut q = 0u8;
-	while q < 4 {
-		let name = KEYS[q as usize];
-		let mut first: Option<usize> = None;
-		let mut second: Option<usize> = None;
-		let mut count = 0;
-		let mut j = 0;
-		while j < 4 {
-			if j < n && keys[j] == q {
-				if first.is_none() {
-					first = Some(j);
-				} else if second.is_none() {
-					second = Some(j);
-				}
-				count += 1;
-			}
-			j += 1;
-		}
-		if o.contains_key(name) != first.is_some() {
-			return false;
-		}
-		if o.index_of(name) != first {
-			return false;
-		}
-		if o.redundant_index_of(name) != second {
-			return false;
-		}
-		// all indexes, in ascending order
-		let mut it = o.indexes_of(name);
-		let mut j = 0;
-		while j < 4 {
-			if j < n && keys[j] == q {
-				if it.next() != Some(j) {
-					return false;
-				}
-			}
-			j += 1;
-		}
-		if it.next().is_some() {
-			return false;
-		}
-		// values / entries in source order
-		let mut vs = o.get(name);
-		let mut es = o.get_entries_with_index(name);
-		let mut j = 0;
-		while j < 4 {
-			if j < n && keys[j] == q {
-				match vs.next() {
-					Some(v) => {
-						if !core::ptr::eq(v, &o.entries[j].value) {
-							return false;
-						}
-					}
-					None => return false,
-				}
-				match es.next() {
-					Some((k, e)) => {
-						if k != j || !core::ptr::eq(e, &o.entries[j]) {
-							return false;
-						}
-					}
-					None => return false,
-				}
-			}
-			j += 1;
-		}
-		if vs.next().is_some() || es.next().is_some() {
-			return false;
-		}
-		// unique lookups
-		match o.get_unique(name) {
-			Ok(None) => {
-				if count != 0 {
-					return false;
-				}
-			}
-			Ok(Some(v)) => {
-				if count != 1 || !core::ptr::eq(v, &o.entries[first.unwrap()].value) {
-					return false;
-				}
-			}
-			Err(super::Duplicate(a, b)) => {
-				if count < 2 || !core::ptr::eq(a, &o.entries[first.unwrap()]) || !core::ptr::eq(b, &o.entries[second.unwrap()]) {
-					return false;
-				}
-			}
-		}
-		q += 1;
+	let pat = [keys[0] as usize & 3, keys[1] as usize & 3, keys[2] as usize & 3];
+	if !is_canonical(&o.indexes, &o.entries, &pat, &[0, 1, 2, 3], n) {
+		return false;
 	}
-	true
+	accessors_agree(o, keys, n, query_key())
+}
+
+#[cfg(kani)]
+fn query_key() -> u8 {
+	any_small()
+}
+
+#[cfg(not(kani))]
+fn query_key() -> u8 {
+	0
+}
+
+/// Every key-based accessor, for the query key `q`, against a linear scan.
+pub fn accessors_agree(o: &Object, keys: &[u8; 4], n: usize, q: u8) -> bool {
+	let name = KEYS[(q & 3) as usize];
+	let mut first: Option<usize> = None;
+	let mut second: Option<usize> = None;
+	let mut count = 0;
+	let mut j = 0;
+	while j < 3 {
+		if j < n && keys[j] == q {
+			if first.is_none() {
+				first = Some(j);
+			} else if second.is_none() {
+				second = Some(j);
+			}
+			count += 1;
+		}
+		j += 1;
+	}
+	if o.contains_key(name) != first.is_some() || o.index_of(name) != first || o.redundant_index_of(name) != second {
+		return false;
+	}
+	let mut it = o.indexes_of(name);
+	let mut vs = o.get(name);
+	let mut es = o.get_entries_with_index(name);
+	let mut j = 0;
+	while j < 3 {
+		if j < n && keys[j] == q {
+			if it.next() != Some(j) {
+				return false;
+			}
+			match vs.next() {
+				Some(v) => {
+					if !core::ptr::eq(v, &o.entries[j].value) {
+						return false;
+					}
+				}
+				None => return false,
+			}
+			match es.next() {
+				Some((k, e)) => {
+					if k != j || !core::ptr::eq(e, &o.entries[j]) {
+						return false;
+					}
+				}
+				None => return false,
+			}
+		}
+		j += 1;
+	}
+	if it.next().is_some() || vs.next().is_some() || es.next().is_some() {
+		return false;
+	}
+	match o.get_unique(name) {
+		Ok(None) => count == 0,
+		Ok(Some(v)) => count == 1 && core::ptr::eq(v, &o.entries[first.unwrap()].value),
+		Err(super::Duplicate(a, b)) => {
+			count >= 2 && core::ptr::eq(a, &o.entries[first.unwrap()]) && core::ptr::eq(b, &o.entries[second.unwrap()])
+		}
+	}
 }
 
 #[cfg(kani)]
@@ -268,16 +256,18 @@ fn entry_matches(e: &Entry, kv: (u8, u8)) -> bool {
 }
 
 macro_rules! i3_object_op {
-	($name:ident, $n:expr) => {
+	($name:ident, $pat:expr, $n:expr) => {
 		#[cfg(kani)]
 		#[kani::proof]
 		#[kani::unwind(6)]
 		#[kani::stub(smallvec::SmallVec::try_grow, crate::verif::util::no_grow)]
 		fn $name() {
 			const N: usize = $n;
-			let keys = any3();
+			const P: [usize; 3] = $pat;
+			let cls = any_classes();
+			let keys = keys_of(&P, &cls);
 			let vals = any3();
-			let mut o = object_of(&keys, &vals, N);
+			let mut o = object_of(&P, &keys, &vals, N);
 			let mut m = Model::of(&keys, &vals, N);
 			let k = any_small();
 			let v = any_small();
@@ -441,9 +431,10 @@ macro_rules! i3_object_op {
 	};
 }
 
-i3_object_op!(i3_object_op_n0, 0);
-i3_object_op!(i3_object_op_n1, 1);
-i3_object_op!(i3_object_op_n2, 2);
+i3_object_op!(i3_object_op_empty, [0, 1, 2], 0);
+i3_object_op!(i3_object_op_a, [0, 1, 2], 1);
+i3_object_op!(i3_object_op_aa, [0, 0, 1], 2);
+i3_object_op!(i3_object_op_ab, [0, 1, 2], 2);
 
 // ---------------------------------------------------------------------------
 // C09 / C10: the canonicalization comparator (object::canonical_cmp, the
@@ -598,7 +589,7 @@ impl core::hash::Hasher for Recorder {
 }
 
 macro_rules! c14_index_independence {
-	($name:ident, $n:expr) => {
+	($name:ident, $pat:expr, $n:expr) => {
 		#[cfg(kani)]
 		#[kani::proof]
 		#[kani::unwind(10)]
@@ -606,12 +597,14 @@ macro_rules! c14_index_independence {
 		fn $name() {
 			use core::hash::Hash;
 			const N: usize = $n;
-			let keys = any3();
+			const P: [usize; 3] = $pat;
+			let cls = any_classes();
+			let keys = keys_of(&P, &cls);
 			let vals = any3();
 			// same entries; one object carries the canonical index, the other an
 			// EMPTY index (a state no history reaches: stronger than comparing histories)
-			let a = object_of(&keys, &vals, N);
-			let mut b = object_of(&keys, &vals, N);
+			let a = object_of(&P, &keys, &vals, N);
+			let mut b = object_of(&P, &keys, &vals, N);
 			b.indexes.clear();
 			assert!(a == b, "C14:object-eq-ignores-the-index");
 			assert!(a.cmp(&b) == Ordering::Equal && a.partial_cmp(&b) == Some(Ordering::Equal), "C14:object-cmp-ignores-the-index");
@@ -620,13 +613,13 @@ macro_rules! c14_index_independence {
 			a.hash(&mut ha);
 			b.hash(&mut hb);
 			assert!(ha.0.same_as(&hb.0), "C14:object-hash-ignores-the-index");
-			// a different entry list is told apart
+			// a different entry list (same keys, other values) is told apart
 			let other = any3();
-			let c = object_of(&other, &vals, N);
+			let c = object_of(&P, &keys, &other, N);
 			let mut same = true;
 			let mut i = 0;
 			while i < 3 {
-				if i < N && other[i] != keys[i] {
+				if i < N && other[i] != vals[i] {
 					same = false;
 				}
 				i += 1;
@@ -640,33 +633,37 @@ macro_rules! c14_index_independence {
 	};
 }
 
-c14_index_independence!(c14_index_independence_n0, 0);
-c14_index_independence!(c14_index_independence_n1, 1);
-c14_index_independence!(c14_index_independence_n2, 2);
+c14_index_independence!(c14_index_independence_empty, [0, 1, 2], 0);
+c14_index_independence!(c14_index_independence_a, [0, 1, 2], 1);
+c14_index_independence!(c14_index_independence_aa, [0, 0, 1], 2);
+c14_index_independence!(c14_index_independence_ab, [0, 1, 2], 2);
 
 macro_rules! c14_clone {
-	($name:ident, $n:expr) => {
+	($name:ident, $pat:expr, $n:expr) => {
 		#[cfg(kani)]
 		#[kani::proof]
 		#[kani::unwind(6)]
 		#[kani::stub(smallvec::SmallVec::try_grow, crate::verif::util::no_grow)]
 		fn $name() {
 			const N: usize = $n;
-			let keys = any3();
+			const P: [usize; 3] = $pat;
+			let cls = any_classes();
+			let keys = keys_of(&P, &cls);
 			let vals = any3();
-			let a = object_of(&keys, &vals, N);
+			let a = object_of(&P, &keys, &vals, N);
 			let b = a.clone();
 			let m = Model::of(&keys, &vals, N);
 			assert!(object_is(&b, &m.keys, &m.vals, m.n), "C14:clone-has-the-same-entries-and-a-working-index");
 			assert!(a == b, "C14:clone-equals-original");
-			kani::cover!(N < 2 || keys[0] == keys[1]);
+			kani::cover!(cls[0] == 3);
 			core::mem::forget((a, b));
 		}
 	};
 }
 
-c14_clone!(c14_clone_n1, 1);
-c14_clone!(c14_clone_n2, 2);
+c14_clone!(c14_clone_a, [0, 1, 2], 1);
+c14_clone!(c14_clone_aa, [0, 0, 1], 2);
+c14_clone!(c14_clone_ab, [0, 1, 2], 2);
 
 // ---------------------------------------------------------------------------
 // C11: mapped iterators and lookups. The iterators never descend into
@@ -754,16 +751,18 @@ c11_array_iter_mapped!(c11_array_iter_mapped_k3, 3);
 /// Object layout per the C05 specification: entry i at base + 1 + sum over the
 /// entries before it of (2 + volume of their value); key at +1, value at +2.
 macro_rules! c11_object_mapped {
-	($name:ident, $n:expr) => {
+	($name:ident, $pat:expr, $n:expr) => {
 		#[cfg(kani)]
 		#[kani::proof]
 		#[kani::unwind(18)]
 		#[kani::stub(smallvec::SmallVec::try_grow, crate::verif::util::no_grow)]
 		fn $name() {
 			const N: usize = $n;
-			let keys = any3();
+			const P: [usize; 3] = $pat;
+			let cls = any_classes();
+			let keys = keys_of(&P, &cls);
 			let vals = [0u8, 1, 2];
-			let o = object_of(&keys, &vals, N);
+			let o = object_of(&P, &keys, &vals, N);
 			let mut map = junk_code_map();
 			let base: usize = kani::any();
 			kani::assume(base <= 1);
@@ -847,8 +846,7 @@ macro_rules! c11_object_mapped {
 					assert!(count >= 2 && a.offset == want[first] + 2 && b.offset == want[second] + 2, "C11:unique-mapped-lookup-duplicate-error")
 				}
 			}
-			kani::cover!(N < 2 || count == 2);
-			kani::cover!(N < 1 || count == 1);
+			kani::cover!(N < 1 || count >= 1);
 			kani::cover!(count == 0);
 			core::mem::forget(map);
 			core::mem::forget(o);
@@ -856,7 +854,11 @@ macro_rules! c11_object_mapped {
 	};
 }
 
-c11_object_mapped!(c11_object_mapped_n0, 0);
-c11_object_mapped!(c11_object_mapped_n1, 1);
-c11_object_mapped!(c11_object_mapped_n2, 2);
-c11_object_mapped!(c11_object_mapped_n3, 3);
+c11_object_mapped!(c11_object_mapped_empty, [0, 1, 2], 0);
+c11_object_mapped!(c11_object_mapped_a, [0, 1, 2], 1);
+c11_object_mapped!(c11_object_mapped_aa, [0, 0, 1], 2);
+c11_object_mapped!(c11_object_mapped_ab, [0, 1, 2], 2);
+c11_object_mapped!(c11_object_mapped_aaa, [0, 0, 0], 3);
+c11_object_mapped!(c11_object_mapped_aba, [0, 1, 0], 3);
+c11_object_mapped!(c11_object_mapped_abb, [0, 1, 1], 3);
+c11_object_mapped!(c11_object_mapped_abc, [0, 1, 2], 3);
